@@ -761,14 +761,41 @@ func (d *GateGrid) Eval(x *Exec, root *Node, gc GridCase) GridResult {
 			fmt.Fprintf(&sb, "%v=%v|%v;", call[0], r.Ret0(), r.Halt)
 		}
 		if c.Contract == "container" {
-			for _, m := range []string{"get", "owner", "eACL"} {
-				r := w.Read(n.L, n.H, n.TS, h, m, d.auth.cid)
-				fmt.Fprintf(&sb, "%s=%v;", m, r.Ret0())
+			for _, m := range []string{"get", "owner", "eACL", "alias", "replicasNumbers"} {
+				for _, id := range [][]byte{d.auth.cid, d.auth.cidPlain} {
+					r := w.Read(n.L, n.H, n.TS, h, m, id)
+					fmt.Fprintf(&sb, "%s=%v;", m, r.Ret0())
+				}
+			}
+			// the roster (committed and its raw pending part), the owner index, the size estimations
+			for _, call := range [][]any{{"nodes", d.auth.cid, int64(0)}, {"containersOf", d.auth.ownerID}, {"list", d.auth.ownerID},
+				{"iterateAllContainerSizes", int64(2)}, {"iterateContainerSizes", int64(2), d.auth.cid}, {"listContainerSizes", int64(2)}} {
+				r := w.Read(n.L, n.H, n.TS, h, call[0].(string), call[1:]...)
+				fmt.Fprintf(&sb, "%v=%v|%v;", call[0], r.Ret0(), r.Halt)
+			}
+			for _, kv := range w.Dump(n.L, "container") {
+				if len(kv.K) > 0 && (kv.K[0] == 'u' || kv.K[0] == 'n' || kv.K[0] == 'r' || kv.K[0] == 'm' || kv.K[0] == 'd') {
+					fmt.Fprintf(&sb, "%x=%x;", kv.K, kv.V)
+				}
 			}
 		}
 		if c.Contract == "balance" {
-			r := w.Read(n.L, n.H, n.TS, h, "balanceOf", d.auth.u.Hash)
-			fmt.Fprintf(&sb, "balanceOf=%v;", r.Ret0())
+			for _, a := range []util.Uint160{d.auth.u.Hash, d.auth.lockAcc, d.auth.s.Hash} {
+				r := w.Read(n.L, n.H, n.TS, h, "balanceOf", a)
+				fmt.Fprintf(&sb, "balanceOf=%v;", r.Ret0())
+			}
+		}
+		if c.Contract == "netmap" {
+			for _, call := range [][]any{{"listNodes"}, {"listNodes", int64(2)}, {"listNodes", int64(1)}, {"snapshotByEpoch", int64(1)}, {"snapshot", int64(0)}, {"config", []byte("ContainerFee")}, {"lastEpochBlock"}} {
+				r := w.Read(n.L, n.H, n.TS, h, call[0].(string), call[1:]...)
+				fmt.Fprintf(&sb, "%v%v=%v|%v;", call[0], call[1:], r.Ret0(), r.Halt)
+			}
+		}
+		if c.Contract == "nns" {
+			for _, call := range [][]any{{"properties", []byte("uu.com")}, {"resolve", "uu.com", int64(16)}, {"getAllRecords", "uu.com"}, {"balanceOf", d.auth.u.Hash}, {"tokensOf", d.auth.u.Hash}, {"isAvailable", "uu.com"}} {
+				r := w.Read(n.L, n.H, n.TS, h, call[0].(string), call[1:]...)
+				fmt.Fprintf(&sb, "%v=%v|%v;", call[0], r.Ret0(), r.Halt)
+			}
 		}
 		if c.Contract == "neofsid" {
 			r := w.Read(n.L, n.H, n.TS, h, "key", d.auth.ownerID)
